@@ -51,7 +51,13 @@ func kcFacts(g *engine.Graph, target *engine.Site) []kcFact {
 func kcFactsOfGates(fn *engine.Fn, gates []engine.Gate) []kcFact {
 	var out []kcFact
 	for _, gt := range gates {
-		out = append(out, kcSplitFacts(kcExpandCond(fn, gt.Full(), 3), gt.OnTrue)...)
+		full := gt.Full()
+		exp := kcExpandCond(fn, full, 3)
+		out = append(out, kcSplitFacts(exp, gt.OnTrue)...)
+		if engine.ExprString(exp) != engine.ExprString(full) {
+			// keep the facts in their written form as well
+			out = append(out, kcSplitFacts(full, gt.OnTrue)...)
+		}
 	}
 	return out
 }
@@ -281,6 +287,12 @@ func kcExpandCond(fn *engine.Fn, e ast.Expr, depth int) ast.Expr {
 		}
 		h := fn.Prog.FnOf(callee)
 		if h == nil || h == fn {
+			return e
+		}
+		// only private helpers of the same package are looked through: an exported or
+		// foreign predicate (std.IsRealmDenom, …) is a named fact in its own right and
+		// must read the same whether or not its package happens to be loaded with syntax
+		if callee.Exported() || h.Pkg != fn.Pkg {
 			return e
 		}
 		sig, _ := callee.Type().(*types.Signature)
